@@ -18,9 +18,11 @@ package dht_test
 import (
 	"bytes"
 	"context"
-	"crypto/rand"
+	"crypto/ecdsa"
+	"crypto/elliptic"
 	"errors"
 	"fmt"
+	"math/big"
 	"sort"
 	"strings"
 	"sync"
@@ -353,10 +355,14 @@ func c04Keys() *c04PkSet {
 	if c04Pk != nil {
 		return c04Pk
 	}
-	mk := func() (peer.ID, []byte) {
+	mk := func(d int64) (peer.ID, []byte) {
 		// ECDSA public keys are too long to be inlined in the peer ID, so the ID
-		// is a hash and the key has to be fetched.
-		_, pub, err := ci.GenerateECDSAKeyPair(rand.Reader)
+		// is a hash and the key has to be fetched.  The keys are fixed (private
+		// scalar d): ecdsa.GenerateKey is deliberately non-deterministic.
+		c := elliptic.P256()
+		k := big.NewInt(d)
+		x, y := c.ScalarBaseMult(k.Bytes())
+		_, pub, err := ci.ECDSAKeyPairFromKey(&ecdsa.PrivateKey{PublicKey: ecdsa.PublicKey{Curve: c, X: x, Y: y}, D: k})
 		if err != nil {
 			panic(err)
 		}
@@ -371,8 +377,8 @@ func c04Keys() *c04PkSet {
 		return id, b
 	}
 	s := &c04PkSet{}
-	s.target, s.targetKey = mk()
-	s.other, s.otherKey = mk()
+	s.target, s.targetKey = mk(0x5eed0001)
+	s.other, s.otherKey = mk(0x5eed0002)
 	c04Pk = s
 	return s
 }
